@@ -432,6 +432,9 @@ func (w *balWorld) addrPool(s *balState) [][]byte {
 	e := chainkit.NamedUser("bal-empty").ScriptHash()
 	w.names[e] = "empty"
 	res = append(res, e.BytesBE())
+	// the all-zero address: twenty well-formed bytes, an account like any other
+	w.names[util.Uint160{}] = "zero-address"
+	res = append(res, util.Uint160{}.BytesBE())
 	var extra []string
 	for k := range s.accs {
 		extra = append(extra, k)
